@@ -32,6 +32,10 @@ WORK_DIR = os.path.join(VERIF, "work") if REPO == "/repo" else os.path.join(VERI
 # builds against a scratch copy of the repository (mutation testing) never
 # share a target dir with builds against /repo
 TARGET_DIR = os.path.join(VERIF, "target") if REPO == "/repo" else os.path.join(WORK_DIR, "target_alt")
+if REPO != "/repo":
+    # replays of runs against a scratch copy (seeded / mutated trees) are not
+    # findings about /repo: keep them out of the tracked replay directory
+    REPLAY_DIR = os.path.join(WORK_DIR, "replays")
 KNOWN_FINDINGS = os.path.join(VERIF, "known_findings.json")
 
 
